@@ -332,6 +332,42 @@ def wkc_sites():
     return sorted(set(sites))
 
 
+def wake_order():
+    """The order of the two pairs of steps the no-lost-wake-up argument rests on, read off the
+    source text: in ReceiveFrameFut::poll the waker is registered BEFORE the RxDone check; in
+    ReceivingFrame::mark_received the status becomes RxDone BEFORE the waker is taken and woken."""
+    rel = "src/pdu_loop/frame_element/receiving_frame.rs"
+    txt = strip_comments(open(os.path.join(REPO, rel)).read())
+    def body(after, name):
+        m = re.search(r"fn\s+" + name + r"\s*\(", txt[after:])
+        if not m:
+            raise Refuse(f"fn {name} not found in {rel}")
+        st = after + m.start()
+        i = txt.index("{", st)
+        depth, j = 0, i
+        while True:
+            if txt[j] == "{":
+                depth += 1
+            elif txt[j] == "}":
+                depth -= 1
+                if depth == 0:
+                    break
+            j += 1
+        return txt[i:j]
+    fut = txt.find("impl<'sto> Future for ReceiveFrameFut")
+    if fut < 0:
+        raise Refuse("impl Future for ReceiveFrameFut not found")
+    poll = body(fut, "poll")
+    mr = body(0, "mark_received")
+    reg = poll.find("replace_waker(")
+    chk = poll.find("swap_state(FrameState::RxDone")
+    done = mr.find("swap_state(FrameState::RxBusy, FrameState::RxDone")
+    wake = mr.find(".wake()")
+    if min(reg, chk, done, wake) < 0:
+        raise Refuse(f"wake protocol anchors not found in {rel} (reg {reg}, check {chk}, done {done}, wake {wake})")
+    return reg < chk, done < wake
+
+
 def main():
     try:
         structs, enums = collect()
@@ -369,6 +405,18 @@ def main():
           "Definition wkc_optout_sites : list (string * string * string) :=\n  [%s]." % ";\n   ".join('("%s", "%s", "%s")' % w for w in ws)]
     changed3 = write_if_changed(os.path.join(OUT, "WkcSites.v"), "\n".join(wl) + "\n")
     changed = changed or changed3
+    try:
+        rf, df = wake_order()
+    except Refuse as e:
+        print(f"src2coq: REFUSED: {e}")
+        sys.exit(2)
+    wo = ["(* GENERATED by tools/src2coq.py from /repo's working tree -- do not edit *)",
+          "(* ReceiveFrameFut::poll registers its waker before it tests for RxDone *)",
+          "Definition register_before_check : bool := %s." % ("true" if rf else "false"),
+          "(* ReceivingFrame::mark_received stores RxDone before it takes and wakes the waker *)",
+          "Definition done_before_wake : bool := %s." % ("true" if df else "false")]
+    changed4 = write_if_changed(os.path.join(OUT, "WakeOrder.v"), "\n".join(wo) + "\n")
+    changed = changed or changed4
     summary = {"structs": len(structs), "enums": len(enums), "wkc_optout_sites": len(ws),
                "implicit_enums": [e["name"] for e in enums if any(v["disc"] is None and not v["catch"] for v in e["variants"])],
                "consts": len(cs), "changed": bool(changed or changed2)}
